@@ -544,3 +544,30 @@ Proof.
                             ([], [(dist0, (target, 1))])).
   intros d c r [E|[]]. inversion E; subst. cbn. lia.
 Qed.
+
+(* more fuel never changes a finished search; hence one fuel serves finitely many dates *)
+Lemma pt_loop_fuel_mono : forall choose recs date f t q t',
+  pt_loop f choose recs date t q = PTDone t' ->
+  forall k, pt_loop (f + k) choose recs date t q = PTDone t'.
+Proof.
+  intros choose recs date f. induction f as [|f IH]; intros t q t' H k.
+  - cbn [pt_loop] in H. destruct (take_at (choose q) q) as [[[cd [prev prate]] q']|] eqn:T; [discriminate|].
+    destruct (0 + k)%nat; cbn [pt_loop]; rewrite T; exact H.
+  - cbn [Nat.add pt_loop] in *. destruct (take_at (choose q) q) as [[[cd [prev prate]] q']|] eqn:T; [|exact H].
+    destruct (match get prev t with Some (pd, _) => dist_ltb pd cd | None => false end).
+    + apply IH. exact H.
+    + destruct (get prev recs) as [inn|].
+      * destruct (relax date cd prate inn (t, q')) as [t1 q1]. apply IH. exact H.
+      * apply IH. exact H.
+Qed.
+
+Theorem uniform_fuel : forall choose recs target (dates : list Z),
+  exists fuel, forall d, In d dates -> exists t, price_table fuel choose recs target d = PTDone t.
+Proof.
+  intros choose recs target dates. induction dates as [|d r IH].
+  - exists O. intros d [].
+  - destruct IH as [f2 H2]. destruct (table_terminates choose recs target d) as (f1 & t1 & H1).
+    exists (f1 + f2)%nat. intros d' [<-|Hin].
+    + exists t1. apply pt_loop_fuel_mono. exact H1.
+    + destruct (H2 d' Hin) as [t2 E2]. exists t2. rewrite Nat.add_comm. apply pt_loop_fuel_mono. exact E2.
+Qed.
